@@ -508,7 +508,7 @@ func (e *Engine) callMods(fr *Frame, fn *ssa.Function, x ssa.CallInstruction, de
 				return
 			}
 			if c := e.prog.Contracts[funcKey(callee)]; c != nil {
-				for _, m := range c.Modifies {
+				for _, m := range e.expandMods(c.Modifies) {
 					addAll(e.modName(m))
 				}
 				return
@@ -571,7 +571,7 @@ func (e *Engine) callMods(fr *Frame, fn *ssa.Function, x ssa.CallInstruction, de
 		}
 		if target := e.bindInvoke(cc); target != nil && depth < 4 {
 			if c := e.prog.Contracts[funcKey(target)]; c != nil {
-				for _, m := range c.Modifies {
+				for _, m := range e.expandMods(c.Modifies) {
 					addAll(e.modName(m))
 				}
 				return
@@ -775,7 +775,7 @@ func (fr *Frame) contractCall(ctx *callCtx, callee *ssa.Function, c *Contract) V
 		f := e.evalBool(r.expr, envPre)
 		e.addObl(st, "call("+short+").requires", fr.lbl(r.label), f, ctx.pos)
 	}
-	for _, m := range c.Modifies {
+	for _, m := range e.expandMods(c.Modifies) {
 		name := e.modName(m)
 		if name == "G_*" {
 			e.havocGhost(st)
@@ -817,6 +817,42 @@ func (fr *Frame) contractCall(ctx *callCtx, callee *ssa.Function, c *Contract) V
 	}
 	e.usedContracts[funcKey(callee)] = true
 	return res
+}
+
+// expandMods expands "module.*" entries to every registered ghost heap of that module, and store names to
+// their value/domain heaps.
+func (e *Engine) expandMods(ms []string) []string {
+	var out []string
+	for _, m := range ms {
+		if strings.HasSuffix(m, ".*") {
+			pre := "G_" + strings.TrimSuffix(m, ".*") + "_"
+			var ks []string
+			for k := range e.heapSorts {
+				if strings.HasPrefix(k, pre) {
+					ks = append(ks, k)
+				}
+			}
+			sort.Strings(ks)
+			out = append(out, ks...)
+			continue
+		}
+		n := e.modName(m)
+		if _, ok := e.heapSorts[n]; ok || n == "G_*" {
+			out = append(out, n)
+			continue
+		}
+		found := false
+		for _, suf := range []string{"_v", "_d"} {
+			if _, ok := e.heapSorts[n+suf]; ok {
+				out = append(out, n+suf)
+				found = true
+			}
+		}
+		if !found {
+			out = append(out, n)
+		}
+	}
+	return out
 }
 
 // modName maps a modifies entry to a heap name.
